@@ -132,9 +132,11 @@ ELEMENTS = (
     complex(1.0, 2.0), (complex(0.0, 1.0),),                                                         # 20..21 complex
     sut.Perm.R | sut.Perm.W,                                                                         # 22 flag combination
     sut._Hidden.H, sut.Outer.Inner.A, [sut._Hidden.H],                                               # noqa: SLF001  23..25 enum class not nameable
+    frozenset({1, 2}), frozenset(),                                                                  # 26..27 hashable, not a set display
 )
 UNHASHABLE_CODES = (11, 12, 13, 14, 18, 19, 25)
-DICT_KEYS = (0, True, None, "a'\\", b"k", (1, "x"), sut.Color.GREEN, 1.5, complex(1.0, 2.0), sut._Hidden.H)  # noqa: SLF001
+DICT_KEYS = (0, True, None, "a'\\", b"k", (1, "x"), sut.Color.GREEN, 1.5, complex(1.0, 2.0), sut._Hidden.H,  # noqa: SLF001
+             frozenset({"x"}))
 # key 7 makes the dict not assertable by value; 8 complex; 9 enum class not nameable
 
 
